@@ -49,7 +49,7 @@ CHECKS = {
         technique="TLC bounded enumeration + exhaustive node-list queries through gaftools view; TLC validation against Select",
     ),
     "C05": dict(
-        text="Same sessions; ALL regions (every contig, every 0<=a<=b<contig length) and seeded region pairs are run through gaftools view --region under a per-query alarm; TLC (Check_View.V05) accepts any node set between half-open and closed end semantics and decides selection, order, termination and absence of internal errors.",
+        text="Same sessions; ALL regions (every contig, every 0<=a<=b<contig length) and seeded region pairs are run through gaftools view --region under a per-query alarm; TLC (Check_View.V05) accepts any node set between half-open and closed end semantics and decides selection, order, termination and absence of internal errors. Added by hand: a reference chain of 60 (thorough 130) aligned segments with regions over 49 / 50 / 51 / all indexed nodes.",
         ref="5 C05", note="Trusted: TLC, the BGZF block walker / line splitters in harness/readers.py, pickle. Bounds: reference chain <=3 (quick) / <=4 (thorough) segments of length 1-2, <=2 haplotype segments, walks <=2-3 steps, <=1-2 unaligned nodes; stable files are gaftools' own conversions of the unstable ones. Region end inclusive/exclusive both accepted (DESIGN 7.3).",
         technique="TLC bounded enumeration + exhaustive region queries through gaftools view; TLC validation against Must/May node sets",
     ),
@@ -74,8 +74,8 @@ CHECKS = {
         technique="TLC model checking of Stat.tla (loop vs definition, permutation invariance) + replay through gaftools stat; TLC validation of the printed report",
     ),
     "C20": dict(
-        text="Phase.tla gives the admissible annotations of a read from the haplotag TSV and the first-row-wins loop as a machine (checked against the declarative set); gaftools phase runs on every enumerated (TSV, file) and random combinations; TLC (Check_Phase) decides one-record-per-record, 12 columns incl. strand, optional fields unchanged and well-formed, exactly one ps:Z/ht:Z from the TSV.",
-        ref="5 C20", note="Trusted: TLC, the line splitter. Pool: spec/data/phase_pool.json. An output path is always given; parser-safe optional fields.",
+        text="Phase.tla gives the admissible annotations of a read from the haplotag TSV and the first-row-wins loop as a machine (checked against the declarative set); gaftools phase runs on every enumerated (TSV, file) and random combinations; TLC (Check_Phase) decides one-record-per-record, 12 columns incl. strand, optional fields unchanged and well-formed, exactly one ps:Z/ht:Z from the TSV. A quarter of the cases whose table lists a read with conflicting rows are run again under three other hash seeds and must give the same bytes.",
+        ref="5 C20", note="Trusted: TLC, the line splitter. Pool: spec/data/phase_pool.json. Any row of a read listed several times is accepted (DESIGN 7.3).",
         technique="TLC model checking of Phase.tla + replay through gaftools phase; TLC validation of every output line",
     ),
     "C16": dict(
@@ -104,7 +104,7 @@ CHECKS = {
         technique="TLC bounded enumeration of defective multi-chromosome graphs + differential replay through order_gfa; TLC validation",
     ),
     "C17": dict(
-        text="Storage.tla models plain byte offsets and BGZF virtual offsets (blocks, both representations of a block boundary) and TLC checks ReadLine(Seek(Tell-before-line-i)) = line i for every small file and block size; seeded sessions are pushed through every GAF/graph-consuming command under {plain, multi-block BGZF} x {gfa, gfa.gz}, stored offsets (.gvi, .gsi) are resolved by seeking the real files, and TLC (Check_Same) decides that the four abstract results agree. The per-command oracles are the other properties' checks, which also alternate storage configurations.",
+        text="Storage.tla models plain byte offsets and BGZF virtual offsets (blocks, both representations of a block boundary) and TLC checks ReadLine(Seek(Tell-before-line-i)) = line i for every small file and block size; seeded sessions are pushed through every GAF/graph-consuming command under {plain, multi-block BGZF} x {gfa, gfa.gz}, stored offsets (.gvi, .gsi) are resolved by seeking the real files, and TLC (Check_Same) decides that the four abstract results agree; one path is used again after its compression changed (plain, BGZF, plain, BGZF). The per-command oracles are the other properties' checks, which also alternate storage configurations.",
         ref="5 C17, 4.3", note="Trusted: TLC, the harness BGZF writer/walker (stdlib zlib/struct). Quick uses 400-byte BGZF blocks (every record straddles blocks), thorough adds 64 KiB-scale blocks with padded records. Output file names are not compared.",
         technique="TLC model checking of Storage.tla + differential replay of all commands over the storage matrix; TLC validation of agreement",
     ),
